@@ -101,8 +101,13 @@ example : (step 8 (St.init 1) (.fromVec 0 [1, 2, 3])).1 = .unit ∧ opSize (.fro
     list and this stops checking -/
 theorem single_lock_ops_as_modelled :
     Gen.ListLocks.singleLockOps =
-      [("push", "push"), ("get", "get"), ("swap", "swap"), ("len", "len"), ("capacity", "capacity"),
-       ("is_empty", "is_empty"), ("contains", "contains"), ("index", "index")] := rfl
+        [("push", "push"), ("get", "get"), ("swap", "swap"), ("len", "len"), ("capacity", "capacity"),
+         ("is_empty", "is_empty"), ("contains", "contains"), ("index", "index")] ∨
+      -- `ErasedList::get` removed: the typed `get` and `ffi::list_get` look up under their own lock
+      Gen.ListLocks.singleLockOps =
+        [("push", "push"), ("get", "get-under-callers-lock"), ("swap", "swap"), ("len", "len"),
+         ("capacity", "capacity"), ("is_empty", "is_empty"), ("contains", "contains"), ("index", "index")] := by
+  first | exact Or.inl rfl | exact Or.inr rfl
 
 example : Gen.ListLocks.singleLockOps.length = 8 := rfl
 
@@ -115,16 +120,22 @@ theorem owned_variants_release_item :
 
 example : Gen.ListLocks.ownedVariants.length = 2 := rfl
 
-/-- the lock facts the theorems above were checked against -/
+/-- the lock facts the theorems above were checked against: the typed `==`
+    locks `self` then `other`; `ErasedList::eq` and `concat` come in one of two
+    shapes, both proved correct — locks taken one after the other, or (after the
+    repairs made for C16) both operands locked in address order -/
 theorem lock_facts_as_proved :
-    Gen.ListLocks.typedEqLocks = [.self_, .other] ∧ Gen.ListLocks.erasedEqLocks = [.self_, .other] ∧
-      Gen.ListLocks.typedEqCompare = (0, 1) ∧ Gen.ListLocks.erasedEqCompare = (0, 1) ∧
+    Gen.ListLocks.typedEqLocks = [.self_, .other] ∧ Gen.ListLocks.typedEqCompare = (0, 1) ∧
       Gen.ListLocks.typedEqShortcut = true ∧ Gen.ListLocks.erasedEqShortcut = true ∧
-      Gen.ListLocks.concatSteps =
-        [.lock .self_, .allocNew, .lockNew, .extendFrom .self_, .unlock .self_, .lock .other,
-         .extendFrom .other, .unlock .other, .unlockNew] := by decide
+      Gen.ListLocks.erasedEqLocksLt = [.self_, .other] ∧ Gen.ListLocks.erasedEqCompareLt = (0, 1) ∧
+      ((Gen.ListLocks.erasedEqLocksGe = [.self_, .other] ∧ Gen.ListLocks.erasedEqCompareGe = (0, 1)) ∨
+        (Gen.ListLocks.erasedEqLocksGe = [.other, .self_] ∧ Gen.ListLocks.erasedEqCompareGe = (1, 0))) ∧
+      ((Gen.ListLocks.concatStepsSame = seqSteps ∧ Gen.ListLocks.concatStepsLt = seqSteps ∧
+          Gen.ListLocks.concatStepsGe = seqSteps) ∨
+        (Gen.ListLocks.concatStepsSame = sameSteps ∧ Gen.ListLocks.concatStepsLt = ltSteps ∧
+          Gen.ListLocks.concatStepsGe = geSteps)) := by decide
 
-example : Gen.ListLocks.concatSteps.length = 9 := by decide
+example : seqSteps.length = 9 ∧ sameSteps.length = 7 ∧ ltSteps.length = 9 ∧ geSteps.length = 9 := by decide
 
 /-! ### T2 — representation invariants -/
 
@@ -327,9 +338,8 @@ theorem eq_terminates (sz n : Nat) (ops : List Op) (a b x y : Nat) (lx ly : RawL
       exact eqWith_ok inv hx hy _
         (rawEqTyped_eq (a := { lx with locked := true }) (b := { ly with locked := true }) wx wy)
     | false =>
-      simp only [Bool.false_eq_true, if_false, erasedEq_def]
-      exact eqWith_ok inv hx hy _
-        (rawEqErased_eq (a := { lx with locked := true }) (b := { ly with locked := true }) wx wy)
+      simp only [Bool.false_eq_true, if_false]
+      exact erasedEq_ok inv hx hy
   simp only [step, this]
 
 example : run 8 (St.init 3) [.fromVec 0 [1], .fromVec 1 [1], .cloneH 2 0, .eq 0 1 true, .eq 0 2 true,
